@@ -44,6 +44,40 @@ fn axle_fresh<const N: usize>() -> Result<(), String> {
     }
     Ok(())
 }
+
+// ---- to_dyn! on a Reference that is the ONLY handle to its target: if the conversion succeeds the result
+// must keep the target alive (a conversion through a raw pointer of an Rc/Arc would drop it)
+pub trait Tr { fn v(&self) -> u64; }
+struct Tgt { v: u64, dropped: std::sync::Arc<std::sync::atomic::AtomicBool> }
+impl Tr for Tgt { fn v(&self) -> u64 { self.v } }
+impl Drop for Tgt { fn drop(&mut self) { self.dropped.store(true, std::sync::atomic::Ordering::SeqCst); } }
+/// returns (variant name, Ok(None) = macro panicked (not supported), Ok(Some(value read)), Err(description))
+fn to_dyn_sole_handle(variant: usize) -> (&'static str, Result<Option<u64>, String>) {
+    use std::sync::atomic::Ordering;
+    let flag = std::sync::Arc::new(std::sync::atomic::AtomicBool::new(false));
+    let t = Tgt { v: 41 + variant as u64, dropped: flag.clone() };
+    let (name, r): (&'static str, Reference<Tgt>) = match variant {
+        0 => ("RcRefCell", rc_ref_cell_reference(t)),
+        1 => ("ArcRwLock", arc_rw_lock_reference(t)),
+        _ => ("ArcMutex", arc_mutex_reference(t)),
+    };
+    let conv = catch(move || to_dyn!(Tr, r));
+    match conv {
+        Err(_) => (name, Ok(None)),
+        Ok(d) => {
+            if flag.load(Ordering::SeqCst) { return (name, Err(format!("to_dyn! on the only {} handle succeeded but the target was dropped while the trait-object Reference is alive", name))); }
+            let got = d.borrow().v();
+            let c = d.clone();
+            drop(d);
+            if flag.load(Ordering::SeqCst) { return (name, Err(format!("target of a {} Reference dropped while a clone of the trait-object Reference is alive", name))); }
+            let got2 = c.borrow().v();
+            drop(c);
+            if got != 41 + variant as u64 || got2 != got { return (name, Err(format!("trait-object Reference reads {} / {}", got, got2))); }
+            if !flag.load(Ordering::SeqCst) { return (name, Err(format!("target of a {} Reference never dropped after the last handle", name))); }
+            (name, Ok(Some(got)))
+        }
+    }
+}
 fn main() {
     let args = Args::parse();
     let mut rep = Report::new("C16", &args);
@@ -57,15 +91,19 @@ fn main() {
                 let case = idx;
                 idx += 1;
                 if !args.mine("nary", case) { continue; }
-                let mut pat = digits(code, n, 3);
+                let base_pat = digits(code, n, 3);
+                let pat = base_pat.clone();
                 let (product, quantity) = (variant & 1 == 1, variant & 2 == 2);
                 let name = format!("{}<{}>", if product { "ProductStream" } else { "SumStream" }, if quantity { "Quantity" } else { "f32" });
                 rep.distinct((n, code, variant));
                 if pat.iter().all(|&p| p == 1) { rep.tally("patterns_all_present"); } else if pat.iter().any(|&p| p == 0) && pat.iter().any(|&p| p == 1) { rep.tally("patterns_with_gaps"); }
                 for d in 0..draws {
                     let mut rng = Rng::new(args.seed, 1600 + d, case);
-                    // alternate the two error codes
-                    if d % 2 == 1 { for p in pat.iter_mut() { if *p == 2 { *p = 3; } } }
+                    let mut pat = base_pat.clone();
+                    // alternate the error codes (Other(1), Other(2), FromNone) and turn some present inputs into read-once inputs
+                    if d % 3 == 1 { for p in pat.iter_mut() { if *p == 2 { *p = 3; } } }
+                    if d % 3 == 2 { for p in pat.iter_mut() { if *p == 2 { *p = 5; } } }
+                    if d % 2 == 1 { for p in pat.iter_mut() { if *p == 1 && rng.chance(0.5) { *p = 4; } } }
                     rep.eval();
                     match catch(|| check(n, &pat, &mut rng, product, quantity)) {
                         Ok(Ok(())) => {}
@@ -113,6 +151,20 @@ fn main() {
             match catch(|| axle_fresh::<$n>()) { Ok(Ok(())) => {}, Ok(Err(m)) => rep.violation(if m.contains("out of bounds") { "C16/out-of-bounds/Axle::get_terminal" } else { "C16/poison-differential/Axle::new" }, "axle", $n, m), Err(m) => rep.violation("C16/panic/Axle::new", "axle", $n, format!("Axle<{}>: {}", $n, m)) } } )* } }
         ax!(0, 1, 2, 3, 4, 5, 6, 7, 8);
         rep.sample("axle", "Axle::<N>::new() for N=0..8: every terminal borrowable, empty, connectable; one update broadcast".to_string());
+    }
+    // ---- to_dyn! on a sole handle
+    if args.mine("to_dyn", 0) {
+        for variant in 0..3 {
+            rep.eval();
+            let (name, r) = to_dyn_sole_handle(variant);
+            rep.distinct(("to_dyn", variant));
+            match r {
+                Ok(None) => rep.tally(&format!("to_dyn_sole_handle/{}/not-supported", name)),
+                Ok(Some(_)) => rep.tally(&format!("to_dyn_sole_handle/{}/ok", name)),
+                Err(m) => rep.violation(&format!("C16/dangling/to_dyn/{}", name), "to_dyn", variant as u64, m),
+            }
+        }
+        rep.sample("to_dyn", "to_dyn!(Tr, <only handle>) for RcRefCell / ArcRwLock / ArcMutex: if it succeeds the target must stay alive until the last trait-object handle is dropped".into());
     }
     rep.floor("patterns_with_gaps", 1000);
     for c in 0..8 { rep.floor(&format!("terminal_combo/{}", c), 50); }
